@@ -1,42 +1,109 @@
 """C27: Berry curvature obeys the sum rule and Chern quantisation.
 
-spec  : SumRule.tla - exact transcription of the internal terms of formula/covariant.py:Omega (through data_K.dEig_inv,
-        data_K.D_H, Omega.nn, Formula_ln.trace) over Hermitian Gaussian-integer velocity matrices and integer spectra, as
-        rationals with a common denominator; MC_SumRule enumerates every input inside the constants (one state each):
-        sum_n Omega_n = 0, block traces additive, antisymmetry; two wrong variants must violate the sum rule.
-bind  : every / a seeded selection of the TLC states is replayed on the REAL dEig_inv, D_H, Dcov, Omega, Formula_ln.trace,
-        tabulate.BerryCurvature and static.AHC through a duck-typed data_K carrying the same integer matrices (exact
-        rational expected values); larger random integer inputs are recorded from the same real code and validated by TLC
-        (SumRuleRec.tla).
-num   : (numeric_only) evaluate_k sum over all bands of berry_curvature_internal_terms on random complex models,
-        run()+AHC with the Fermi level above all bands, Chern numbers of Haldane models (tbmodels and PythTB builders)
-        against the phase diagram and an independent link-variable (Fukui) computation.
+spec  : SumRule.tla - exact transcription of the internal terms of formula/covariant.py:Omega over Hermitian Gaussian-integer
+        velocity matrices and integer spectra, as rationals with a common denominator; MC_SumRule enumerates every input
+        inside the constants (one state each): sum_n Omega_n = 0, block traces additive, antisymmetry, the sum rule over
+        multiplets when two levels are made degenerate; two wrong variants must violate the sum rule.
+bind  : the TLC states are replayed through the PUBLIC path: a k.p system SystemKP(Ham(k) = diag(E) + kx Vx + ky Vy, analytic
+        derivatives) evaluated at k = 0 with wannierberri.evaluate_k (quantity berry_curvature_internal_terms, tabulate.BerryCurvature
+        with band groups, static.AHC on a list of Fermi levels) and compared with the exact rationals; larger random integer
+        inputs (also with exactly degenerate levels) are recorded from the same calls and validated by TLC (SumRuleRec.tla).
+        Optional extra (skipped when the internals it needs are renamed): the block traces Formula_ln.trace over arbitrary
+        band blocks through a duck-typed data_K.
+num   : (numeric_only) evaluate_k sum over all bands of berry_curvature_internal_terms on random complex models, run()+AHC
+        (with and without tetrahedra) with the Fermi level above all bands, Chern numbers of Haldane models (tbmodels and
+        PythTB builders), of coupled Haldane bilayers and of random four-band models with two occupied bands against an
+        independent link-variable (Fukui) computation on the closed-form / harness-side Bloch Hamiltonian.
 """
+import os
+import copy
 import random
+
 import numpy as np
 
 from .. import tlc, ftable
 from ..common import Report, MachineryError, seed, quiet, workdir
+from ._fdutil import Scratch, Skipped, accepted_kwargs
 
 PROPS = {
     "C27": dict(level="exploration",
-                technique="TLC exhaustive on SumRule.tla (exact rational transcription of the internal Berry-curvature formula on Gaussian-integer matrices) + replay of TLC states on the real Omega/Tabulator/AHC code through a duck-typed data_K + TLC validation of recorded evaluations; numeric sum rule, AHC above all bands and Haldane Chern numbers",
+                technique="TLC exhaustive on SumRule.tla (exact rational transcription of the internal Berry-curvature formula on Gaussian-integer matrices) + replay of TLC states on the real evaluate_k / BerryCurvature tabulator / AHC code through a k.p system carrying the same integer data + TLC validation of recorded evaluations (also degenerate spectra); numeric sum rule, AHC above all bands and Chern numbers",
                 text="The specification decides exactly (rationals) the value of the internal Berry curvature of every band/block for all small Hermitian "
                      "Gaussian-integer velocity matrices and integer spectra and proves sum_n Omega_n = 0 and block additivity inside the constants; the real "
-                     "formula code is executed on the same integer data and compared with the exact value (1e-9 relative). For Hamiltonian-derived input "
-                     "(random models, Haldane) only implementation-vs-expected-number comparisons in floating point are possible.",
-                note="spec decides: the algebraic identity sum_n Omega_n = 0, additivity over band blocks, the Fermi-sea partial sums, the exact value for integer inputs. "
+                     "code is executed on the same integer data through the public API (SystemKP with Ham = diag(E) + kx Vx + ky Vy at k = 0, "
+                     "evaluate_k with the quantity berry_curvature_internal_terms, the BerryCurvature tabulator and the AHC calculator) and compared with "
+                     "the exact value (1e-9 relative); spectra with exactly degenerate levels are recorded and validated by TLC per multiplet. For "
+                     "Hamiltonian-derived input (random models, Haldane, bilayers) only implementation-vs-expected-number comparisons in floating point "
+                     "are possible.",
+                note="spec decides: the algebraic identity sum_n Omega_n = 0 (also over multiplets), additivity over band blocks, the Fermi-sea partial sums, the exact value for integer inputs. "
                      "implementation numerics (numeric_only, not carrying the level): evaluate_k / run() on random complex tight-binding models (tolerance 1e-8 x scale), "
-                     "Chern number of Haldane models on a 40x40 (thorough 60x60) grid within 0.02 of the integer fixed by the phase diagram |delta| <> 3 sqrt(3) |t2 sin(phi)| "
-                     "(parameters at least 0.25 away from the gap closing, Fermi level in the middle of a global gap of at least 0.5) and by an independent plaquette (Fukui) computation, sign convention AHC*c/(e^2/h) = -C "
-                     "with C = (1/2 pi) int Omega_z.",
+                     "Chern number on a 40x40 (thorough 60x60) grid within 1e-4 of an integer (2e-2 for the four-band models) for Haldane models (parameters at least 0.25 away from the gap closing "
+                     "|delta| = 3 sqrt(3) |t2 sin(phi)|, Fermi level in the middle of a global gap of at least 0.5), coupled Haldane bilayers and random four-band "
+                     "models with two occupied bands; the integer is fixed by an independent plaquette (Fukui) computation on the closed-form Bloch Hamiltonian, "
+                     "sign convention AHC*c/(e^2/h) = -C with C = (1/2 pi) int Omega_z. The traces over arbitrary band blocks (Formula_ln.trace) are an "
+                     "optional extra through a duck-typed data_K, skipped when the internals change.",
                 ref="DESIGN.md 5 (row C27), 2.3"),
 }
 
+TLC_WORKERS = int(os.environ.get("VERIF_TLC_WORKERS", "4"))
+TOL_CHERN = dict(haldane=1e-4, bilayer=2e-2, random=2e-2)   # >= 10^3 x the distance from an integer observed on the 40 x 40 grid
 
-# ---------------------------------------------------------------- duck-typed data_K around the real code
+
+# ---------------------------------------------------------------- public path: a k.p system that carries the integer data
+class KPHost:
+    """one SystemKP per band number; Ham(k) = diag(E) + kx Vx + ky Vy with analytic derivatives, evaluated at k = 0 where
+    E_n are the band energies and Vx, Vy the velocity matrices in the eigenbasis (up to phases, which Omega does not see)"""
+
+    def __init__(self, nb):
+        from wannierberri.system.system_kp import SystemKP
+        self.nb = nb
+        self.d = dict(E=np.arange(nb, dtype=float), Vx=np.zeros((nb, nb), complex), Vy=np.zeros((nb, nb), complex))
+        z2 = np.zeros((nb, nb, 3, 3), complex)
+        z3 = np.zeros((nb, nb, 3, 3, 3), complex)
+        d = self.d
+        with quiet():
+            self.s = SystemKP(lambda k: np.diag(d["E"]).astype(complex) + k[0] * d["Vx"] + k[1] * d["Vy"],
+                              derHam=lambda k: np.stack([d["Vx"], d["Vy"], np.zeros_like(d["Vx"])], axis=-1),
+                              der2Ham=lambda k: z2, der3Ham=lambda k: z3, kmax=1.0, finite_diff_dk=0.25)
+        self.vol = float(abs(np.linalg.det(self.s.real_lattice)))
+
+    def evaluate(self, E, Vx, Vy, group_thresh=1.5):
+        """-> dict(band (nb,3) quantity, tab (nb,3) tabulator, grp (nb,3) tabulator with band groups, Ef, ahc (nEf,3) per unit cell)"""
+        import wannierberri as wb
+        from wannierberri.calculators import tabulate, static
+        self.d["E"], self.d["Vx"], self.d["Vy"] = np.array(E, dtype=float), np.array(Vx, dtype=complex), np.array(Vy, dtype=complex)
+        Ef = np.arange(-0.5, max(E) + 1.0, 1.0)
+        kwf = dict(external_terms=False)
+        kw = accepted_kwargs(static.StaticCalculator.__init__, constant_factor=1.0)
+        ahc = static.AHC(Efermi=Ef, kwargs_formula=kwf, degen_thresh=0.25, **kw)
+        fac = 1.0 if kw else float(getattr(ahc, "constant_factor"))
+        with quiet():
+            r = wb.evaluate_k(self.s, k=np.zeros(3), quantities=["berry_curvature_internal_terms"],
+                              calculators=dict(tab=tabulate.BerryCurvature(kwargs_formula=kwf, degen_thresh=0.25),
+                                               grp=tabulate.BerryCurvature(kwargs_formula=kwf, degen_thresh=group_thresh), ahc=ahc),
+                              return_single_as_dict=True)
+        return dict(band=np.array(r["berry_curvature_internal_terms"]), tab=np.array(r["tab"].data[0]), grp=np.array(r["grp"].data[0]),
+                    Ef=Ef, ahc=np.array(r["ahc"].data) * self.vol / fac)
+
+
+def chain_groups(E, thresh):
+    """the band groups of a tabulator: neighbouring bands closer than thresh belong together (0-based half-open)"""
+    b = [0] + [i + 1 for i in range(len(E) - 1) if E[i + 1] - E[i] > thresh] + [len(E)]
+    return list(zip(b, b[1:]))
+
+
+def den_io(E, a, b):
+    d = 1
+    for n in range(a, b):
+        for l in range(len(E)):
+            if not a <= l < b:
+                d *= (E[l] - E[n]) ** 2
+    return d
+
+
+# ---------------------------------------------------------------- optional extra: duck-typed data_K around the real formula code
 class DuckK:
-    """carries E_K and Xbar('Ham', 1); everything else is the real wannierberri code"""
+    """carries E_K and Xbar('Ham', 1); everything else is the real wannierberri code (internals: may stop working)"""
     force_internal_terms_only = False
 
     def __init__(self, E, Vx, Vy):
@@ -52,7 +119,7 @@ class DuckK:
 
     def Xbar(self, name, der=0):
         if name != "Ham" or der != 1:
-            raise MachineryError(f"duck data_K asked for Xbar({name},{der})")
+            raise AttributeError(f"duck data_K asked for Xbar({name},{der})")
         return self._V
 
     @property
@@ -70,39 +137,18 @@ class DuckK:
         from wannierberri.data_K.data_K import Data_K
         return Data_K.Dcov.func(self)
 
-    def get_bands_in_range_groups_ik(self, *a, **kw):
-        from wannierberri.data_K.data_K import Data_K
-        return Data_K.get_bands_in_range_groups_ik(self, *a, **kw)
-
-    def get_bands_in_range_groups(self, *a, **kw):
-        from wannierberri.data_K.data_K import Data_K
-        return Data_K.get_bands_in_range_groups(self, *a, **kw)
-
 
 def cmat(M):
     return np.array([[complex(x[0], x[1]) for x in row] for row in M])
 
 
-def real_omega(E, Vx, Vy, blocks):
-    """-> (per band z-values, {block: z-value}, tabulated z-values, sea sums for Ef = -1/2, 1/2, ... above all) from the real code"""
+def duck_blocks(E, Vx, Vy, blocks):
+    """{block: trace (3,)} through Formula_ln.trace of the real Omega on the duck"""
     from wannierberri.formula.covariant import Omega
-    from wannierberri.calculators import tabulate, static
-    nb = len(E)
     d = DuckK(E, cmat(Vx), cmat(Vy))
     f = Omega(d, external_terms=False)
-    allb = np.arange(nb)
-    band = []
-    for n in range(nb):
-        inn = np.array([n])
-        band.append(f.trace(0, inn, np.setdiff1d(allb, inn)))
-    blk = {}
-    for a, b in blocks:
-        inn = np.arange(a, b)
-        blk[(a, b)] = f.trace(0, inn, np.setdiff1d(allb, inn))
-    tab = tabulate.BerryCurvature(kwargs_formula=dict(external_terms=False), degen_thresh=0.25)(d).data[0]
-    Ef = np.arange(-0.5, max(E) + 1.0, 1.0)
-    ahc = static.AHC(Efermi=Ef, constant_factor=1.0, kwargs_formula=dict(external_terms=False), degen_thresh=0.25)(d).data
-    return np.array(band), blk, tab, Ef, ahc
+    allb = np.arange(len(E))
+    return {(a, b): np.array(f.trace(0, np.arange(a, b), np.setdiff1d(allb, np.arange(a, b)))) for a, b in blocks}
 
 
 def occupied(E, ef):
@@ -116,68 +162,112 @@ def cfg_text(nbs, emax, offd, variant, invs, diag="{0}"):
 
 def check(pid, tier):
     rep = Report(pid, tier, "exploration")
+    scratch = Scratch(pid)
+    try:
+        return _check(rep, tier, scratch)
+    except Exception:
+        if rep.violations:
+            rep.finish()
+        raise
+    finally:
+        scratch.cleanup()
+
+
+def _check(rep, tier, scratch):
     thorough = tier == "thorough"
     rng = random.Random(seed() * 104729 + 27)
-    rep.rule("TLC enumerates every (spectrum, Vx, Vy) inside the constants; a case = one TLC state replayed on the real Omega / "
-             "BerryCurvature tabulator / AHC code through a duck-typed data_K (exact rational expectation), or one seeded random recorded "
-             "evaluation validated by TLC, or (numeric_only) one model/k-point/parameter set; distinct by input")
-    rep.assume("velocity matrices are Gaussian integers, spectra distinct integers, Fermi levels half-integers (never on a band energy)")
-    rep.assume("numeric part: k-points with a band gap below 1e-3, Haldane parameters closer than 0.25 to the gap closing, and parameter sets without a global gap of 0.5 (bands overlapping in energy) are excluded (NonDegenerateK, AwayFromTransition, GlobalGap); the Fermi level is put in the middle of the global gap")
-    wd = workdir("c27")
+    skipped = Skipped()
+    rep.rule("TLC enumerates every (spectrum, Vx, Vy) inside the constants; a case = one TLC state replayed on the real evaluate_k / "
+             "BerryCurvature tabulator / AHC code through a k.p system carrying the same integer data (exact rational expectation), or one seeded "
+             "random recorded evaluation validated by TLC, or (numeric_only) one model/k-point/parameter set; distinct by input")
+    rep.assume("velocity matrices are Gaussian integers, spectra integers (distinct, or with exactly degenerate multiplets in the recorded "
+               "evaluations), Fermi levels half-integers (never on a band energy)")
+    rep.assume("numeric part: k-points with a band gap below 1e-3 (run(): models with a gap below 0.02 on the grid), Haldane parameters closer than 0.25 to the gap closing, and parameter sets without a global gap of 0.5 (bands overlapping in energy) are excluded (NonDegenerateK, AwayFromTransition, GlobalGap); the Fermi level is put in the middle of the global gap")
+    wd = workdir(scratch.name("c27"))
 
     # ------------------------------------------------------------ spec
     nbs, emax, offd = ((2, 3), 4, "OFFD_4") if thorough else ((2, 3), 3, "OFFD_3")
-    invs = ("TypeOK", "SumRuleZero", "Additive", "Antisym")
-    st = ftable.enumerate_states("MC_SumRule.tla", cfg_text(nbs, emax, offd, "code", invs), "c27_sumrule")
+    invs = ("TypeOK", "SumRuleZero", "Additive", "Antisym", "DegenSumRule")
+    st = tlc.run_tlc("MC_SumRule.tla", cfg_text(nbs, emax, offd, "code", invs), scratch.name("c27_sumrule"), workers=TLC_WORKERS, dump=True,
+                     coverage=False, timeout=1500)
+    if st.get("timeout"):
+        raise MachineryError("TLC timed out on c27_sumrule")
+    if st.get("error") and not st.get("violation"):
+        raise MachineryError(f"TLC error on c27_sumrule: {st['error'][:600]}")
     ftable.spec_violation(rep, st, "c27_sumrule")
     rep.add_tlc("c27_sumrule", st)
     # band velocities (diagonal of V) do not enter: two-band models with arbitrary diagonals
-    sd = tlc.run_tlc("MC_SumRule.tla", cfg_text((2,), 3, "OFFD_4", "code", invs, diag="{0, 1}"), "c27_sumrule_diag", timeout=900)
+    sd = tlc.run_tlc("MC_SumRule.tla", cfg_text((2,), 3, "OFFD_4", "code", invs, diag="{0, 1}"), scratch.name("c27_sumrule_diag"), workers=TLC_WORKERS,
+                     timeout=900)
     tlc.require_ok(sd, "c27_sumrule_diag")
     ftable.spec_violation(rep, sd, "c27_sumrule_diag")
     rep.add_tlc("c27_sumrule_diag", sd)
     # sensitivity: formulas that do not obey the sum rule must be rejected by TLC
     for variant in ("weighted", "oddden"):
-        sv = tlc.run_tlc("MC_SumRule.tla", cfg_text((2, 3), 2, "OFFD_3", variant, ("SumRuleZero",)), f"c27_{variant}", timeout=900)
+        sv = tlc.run_tlc("MC_SumRule.tla", cfg_text((2, 3), 2, "OFFD_3", variant, ("SumRuleZero",)), scratch.name(f"c27_{variant}"), workers=TLC_WORKERS,
+                         timeout=900)
         if not sv.get("violation") or sv["violation"][1] != "SumRuleZero":
             raise MachineryError(f"sensitivity self-test failed: variant {variant} should violate SumRuleZero ({sv.get('error')})")
         rep.part(f"c27_sensitivity_{variant}", violated=sv["violation"][1])
 
-    # ------------------------------------------------------------ spec -> code
+    # ------------------------------------------------------------ spec -> code (public path)
     states = list(ftable.dump_states(st))
-    if len(states) != st["distinct"]:
+    if len(states) != st["distinct"] and not st.get("violation"):
         raise MachineryError(f"dump has {len(states)} states, TLC reported {st['distinct']}")
+    # the order of the dump depends on the scheduling of the TLC workers: fix it before anything is drawn
+    states.sort(key=lambda s: (len(s["E"]), tuple(s["E"]), repr(s["Vx"]), repr(s["Vy"])))
     nonzero = sum(1 for s in states if any(s["om"]))
     if nonzero < 10:
         raise MachineryError("vacuous: (almost) no state with non-zero Berry curvature")
     rep.part("c27_sumrule", states_with_nonzero_curvature=nonzero)
     nrep = len(states) if thorough else 1500
-    sel = states if len(states) <= nrep else [s for s in states if len(s["E"]) == 2] + rng.sample([s for s in states if len(s["E"]) > 2 and any(s["om"])], nrep)
+    if len(states) <= nrep:
+        sel = states
+    else:
+        pop = [s for s in states if len(s["E"]) > 2 and any(s["om"])]
+        sel = [s for s in states if len(s["E"]) == 2] + rng.sample(pop, min(nrep, len(pop)))
+    hosts = {}
+
+    def host(nb):
+        if nb not in hosts:
+            hosts[nb] = KPHost(nb)
+        return hosts[nb]
+
     tol = 1e-9
     maxdev = 0.0
+    duck = dict(ok=0, on=True)
     for s in sel:
         E, Vx, Vy, om, den = list(s["E"]), s["Vx"], s["Vy"], list(s["om"]), s["den"]
         nb = len(E)
-        blocks = [(a, b) for a in range(nb) for b in range(a + 1, nb + 1)]
-        band, blk, tab, Ef, ahc = real_omega(E, Vx, Vy, blocks)
         key = ("replay", tuple(E), repr(Vx), repr(Vy))
         rep.case(key, nontrivial=any(om))
-        inp = dict(E=E, Vx=[[list(x) for x in r] for r in Vx], Vy=[[list(x) for x in r] for r in Vy], den=den)
+        inp = dict(E=E, Vx=[[list(x) for x in r] for r in Vx], Vy=[[list(x) for x in r] for r in Vy], den=den,
+                   how="SystemKP(Ham = diag(E) + kx Vx + ky Vy, analytic derivatives), evaluate_k at k = 0")
+        try:
+            r = host(nb).evaluate(E, cmat(Vx), cmat(Vy))
+        except Exception as ex:  # noqa
+            if isinstance(ex, (MachineryError, OSError, ImportError)):
+                raise
+            rep.violation("raises:evaluate_k:" + type(ex).__name__, dict(inp, error=repr(ex)[:300]))
+            continue
+        band, tab, grp, Ef, ahc = r["band"], r["tab"], r["grp"], r["Ef"], r["ahc"]
         if np.abs(band[:, :2]).max() != 0:
             rep.violation("Omega:xy_components_nonzero", dict(inp, got=band.tolist()))
         for n in range(nb):
             dev = abs(band[n, 2] * den - om[n])
             maxdev = max(maxdev, dev / max(1, abs(om[n])))
             if dev > tol * max(1, abs(om[n])):
-                rep.violation("Omega.trace:band", dict(inp, band=n, expected_num=om[n], got=float(band[n, 2])))
+                rep.violation("evaluate_k:berry_curvature_internal_terms:band", dict(inp, band=n, expected_num=om[n], got=float(band[n, 2])))
             if abs(tab[n, 2] * den - om[n]) > tol * max(1, abs(om[n])):
                 rep.violation("tabulate.BerryCurvature", dict(inp, band=n, expected_num=om[n], got=float(tab[n, 2])))
         if abs(band[:, 2].sum()) * den > tol * max(1, max(abs(x) for x in om)):
             rep.violation("Omega:sum_rule", dict(inp, got=band[:, 2].tolist()))
-        for (a, b), v in blk.items():
-            exp = sum(om[a:b]) if (b - a) < nb else 0
-            if abs(v[2] * den - exp) > tol * max(1, abs(exp)):
-                rep.violation("Omega.trace:block", dict(inp, block=[a, b], expected_num=exp, got=float(v[2])))
+        for a, b in chain_groups(E, 1.5):
+            exp = sum(om[a:b])
+            for n in range(a, b):
+                if abs(grp[n, 2] * den * (b - a) - exp) > tol * max(1, abs(exp)):
+                    rep.violation("tabulate.BerryCurvature:band_group", dict(inp, block=[a, b], expected_num=exp, got=float(grp[n, 2]) * (b - a)))
+                    break
         for ie, ef in enumerate(Ef):
             j = occupied(E, ef)
             exp = sum(om[:j])
@@ -185,95 +275,166 @@ def check(pid, tier):
                 rep.violation("static.AHC:sea", dict(inp, Ef=float(ef), occupied=j, expected_num=exp, got=float(ahc[ie, 2])))
         if abs(ahc[-1, 2]) * den > tol:
             rep.violation("static.AHC:above_all_bands", dict(inp, got=float(ahc[-1, 2])))
-        rep.sample(dict(fn="Omega(duck)", E=E, Vx=inp["Vx"], Vy=inp["Vy"], den=den, expected_num=om, got=band[:, 2].tolist()))
-    rep.part("replay", states_replayed=len(sel), max_relative_deviation=maxdev, tolerance=tol)
+        # optional extra: traces over arbitrary band blocks with the real Omega on a duck-typed data_K
+        if duck["on"]:
+            blocks = [(a, b) for a in range(nb) for b in range(a + 1, nb + 1)]
+            try:
+                blk = duck_blocks(E, Vx, Vy, blocks)
+            except (AttributeError, TypeError) as ex:
+                skipped.add("duck_data_K_block_traces", ex)
+                duck["on"] = False
+                blk = {}
+            for (a, b), v in blk.items():
+                exp = sum(om[a:b]) if (b - a) < nb else 0
+                if abs(v[2] * den - exp) > tol * max(1, abs(exp)):
+                    rep.violation("Omega.trace:block", dict(inp, block=[a, b], expected_num=exp, got=float(v[2]), how="Formula_ln.trace on a duck-typed data_K"))
+            duck["ok"] += bool(blk)
+        rep.sample(dict(fn="evaluate_k(SystemKP)", E=E, Vx=inp["Vx"], Vy=inp["Vy"], den=den, expected_num=om, got=band[:, 2].tolist()))
+    rep.part("replay", states_replayed=len(sel), max_relative_deviation=maxdev, tolerance=tol, block_traces_through_duck_data_K=duck["ok"])
 
     # ------------------------------------------------------------ code -> spec
     recs = []
     nrec = 1500 if thorough else 300
+    ndeg = 200 if thorough else 60
+
+    def herm(nb):
+        M = [[[0, 0] for _ in range(nb)] for _ in range(nb)]
+        for m in range(nb):
+            M[m][m] = [rng.randint(-2, 2), 0]
+            for n in range(m + 1, nb):
+                z = [rng.randint(-2, 2), rng.randint(-2, 2)]
+                M[m][n] = z
+                M[n][m] = [z[0], -z[1]]
+        return M
+
+    def to_int(x, scale, what, ctx):
+        v = x * scale
+        if abs(v - round(v)) > 1e-6:
+            rep.violation("Omega:nonintegral_projection", dict(ctx, scale=scale, what=what, value=float(x)))
+            return None
+        return int(round(v))
+
     for _ in range(nrec):
         nb = rng.choice([3, 4, 4])
         E = sorted(rng.sample(range(0, 6), nb))
-        def herm():
-            M = [[[0, 0] for _ in range(nb)] for _ in range(nb)]
-            for m in range(nb):
-                M[m][m] = [rng.randint(-2, 2), 0]
-                for n in range(m + 1, nb):
-                    z = [rng.randint(-2, 2), rng.randint(-2, 2)]
-                    M[m][n] = z
-                    M[n][m] = [z[0], -z[1]]
-            return M
-        Vx, Vy = herm(), herm()
+        Vx, Vy = herm(nb), herm(nb)
         den = 1
         for m in range(nb):
             for l in range(m):
                 den *= (E[m] - E[l]) ** 2
-        blocks = [tuple(sorted(rng.sample(range(nb + 1), 2))) for _ in range(3)]
-        band, blk, tab, Ef, ahc = real_omega(E, Vx, Vy, blocks)
-
-        def to_int(x, what):
-            v = x * den
-            if abs(v - round(v)) > 1e-6:
-                rep.violation("Omega:nonintegral_projection", dict(E=E, Vx=Vx, Vy=Vy, den=den, what=what, value=float(x)))
-                return None
-            return int(round(v))
-        om = [to_int(band[n, 2], f"band {n}") for n in range(nb)]
-        grp = [[a, b, to_int(blk[(a, b)][2], f"block {a}:{b}")] for a, b in blocks]
+        ctx = dict(E=E, Vx=Vx, Vy=Vy, den=den)
+        try:
+            r = host(nb).evaluate(E, cmat(Vx), cmat(Vy))
+        except Exception as ex:  # noqa
+            if isinstance(ex, (MachineryError, OSError, ImportError)):
+                raise
+            rep.violation("raises:evaluate_k:" + type(ex).__name__, dict(ctx, error=repr(ex)[:300]))
+            continue
+        om = [to_int(r["band"][n, 2], den, f"band {n}", ctx) for n in range(nb)]
+        grp = [[a, b, to_int(r["grp"][a, 2] * (b - a), den, f"band group {a}:{b}", ctx)] for a, b in chain_groups(E, 1.5)]
         sea_by_occ = {}
-        for ie, ef in enumerate(Ef):
-            sea_by_occ[occupied(E, ef)] = to_int(ahc[ie, 2], f"sea Ef={ef}")
+        for ie, ef in enumerate(r["Ef"]):
+            sea_by_occ[occupied(E, ef)] = to_int(r["ahc"][ie, 2], den, f"sea Ef={ef}", ctx)
         if None in om or any(g[2] is None for g in grp) or None in sea_by_occ.values() or sorted(sea_by_occ) != list(range(nb + 1)):
             continue
         recs.append(dict(E=E, Vx=Vx, Vy=Vy, den=den, om=om, grp=grp, sea=[sea_by_occ[j] for j in range(nb + 1)]))
         rep.case(("rec", tuple(E), repr(Vx), repr(Vy)), nontrivial=any(om))
-    if len(recs) < nrec // 2:
-        raise MachineryError("too few records")
-    stv, bad = ftable.validate_records("SumRuleRec.tla", ftable.REC_CFG, recs, "c27")
-    rep.add_tlc("c27_records", stv)
-    rep.add_traces(len(recs))
-    for i, clauses in bad.items():
-        rep.violation("Omega:recorded:" + clauses[0], dict(record=recs[i], failing_clauses=clauses))
-    rep.sample(recs[0])
-    import copy
-    badrec = copy.deepcopy([r for r in recs if any(r["om"])][:1])
-    if not badrec:
-        raise MachineryError("no record with non-zero curvature")
-    k = [j for j, v in enumerate(badrec[0]["om"]) if v][0]
-    badrec[0]["om"][k] += 1
-    _, b2 = ftable.validate_records("SumRuleRec.tla", ftable.REC_CFG, badrec, "c27_selftest")
-    if 0 not in b2 or "band_equals_spec" not in b2[0] or "sum_rule" not in b2[0]:
-        raise MachineryError(f"binding self-test failed: corrupted record accepted ({b2})")
-    rep.part("binding_selftest", corrupted_record_rejected=b2[0])
+    nnondeg = len(recs)
+    # spectra with exactly degenerate levels: only traces over whole multiplets are defined
+    DEG = [(0, 0, 1), (0, 1, 1), (0, 0, 2), (0, 2, 2), (0, 0, 0, 1), (0, 0, 1, 1), (0, 0, 1, 2), (0, 1, 1, 2), (0, 1, 2, 2), (0, 0, 2, 2), (1, 1, 2)]
+    ndegrec = 0
+    nz_deg = 0
+    for i in range(ndeg):
+        E = list(DEG[i % len(DEG)])
+        nb = len(E)
+        Vx, Vy = herm(nb), herm(nb)
+        ctx = dict(E=E, Vx=Vx, Vy=Vy)
+        try:
+            r = host(nb).evaluate(E, cmat(Vx), cmat(Vy), group_thresh=0.25)
+        except Exception as ex:  # noqa
+            if isinstance(ex, (MachineryError, OSError, ImportError)):
+                raise
+            rep.violation("raises:evaluate_k:" + type(ex).__name__, dict(ctx, error=repr(ex)[:300]))
+            continue
+        rep.case(("rec_degenerate", tuple(E), repr(Vx), repr(Vy)))
+        mult = []
+        for a, b in chain_groups(E, 0.25):
+            for name in ("tab", "band"):
+                # the default degen_thresh of the quantity (1e-4) and 0.25 give the same multiplets for integer spectra
+                vals = r[name][a:b, 2]
+                if np.abs(vals - vals[0]).max() > 1e-9 * max(1.0, abs(vals[0])):
+                    rep.violation("tabulate.BerryCurvature:multiplet_members_differ", dict(ctx, block=[a, b], got=vals.tolist(), source=name))
+            mult.append([a, b, to_int(r["tab"][a, 2] * (b - a), den_io(E, a, b), f"multiplet {a}:{b}", ctx)])
+        msea = []
+        for ie, ef in enumerate(r["Ef"]):
+            b = occupied(E, ef)
+            msea.append([b, to_int(r["ahc"][ie, 2], den_io(E, 0, b), f"sea Ef={ef}", ctx)])
+        if any(m[2] is None for m in mult) or any(m[1] is None for m in msea):
+            continue
+        recs.append(dict(E=E, Vx=Vx, Vy=Vy, mult=mult, msea=msea))
+        ndegrec += 1
+        nz_deg += any(m[2] for m in mult)
+    if not rep.violations and (nnondeg < nrec // 2 or ndegrec < ndeg // 2 or not nz_deg):
+        raise MachineryError(f"too few records ({nnondeg} non-degenerate, {ndegrec} degenerate, {nz_deg} degenerate with non-zero curvature)")
+    if recs:
+        stv, bad = ftable.validate_records("SumRuleRec.tla", ftable.REC_CFG, recs, scratch.name("c27"))
+        rep.add_tlc("c27_records", stv)
+        rep.add_traces(len(recs))
+        for i, clauses in sorted(bad.items()):
+            rep.violation("Omega:recorded:" + clauses[0], dict(record=recs[i], failing_clauses=clauses))
+        rep.part("records", n=len(recs), non_degenerate=nnondeg, degenerate=ndegrec, degenerate_with_nonzero_curvature=nz_deg)
+        rep.sample(recs[0])
+        badrec = copy.deepcopy([r for r in recs if "om" in r and any(r["om"])][:1])
+        baddeg = copy.deepcopy([r for r in recs if "mult" in r and any(m[2] for m in r["mult"])][:1])
+        if badrec and baddeg:
+            k = [j for j, v in enumerate(badrec[0]["om"]) if v][0]
+            badrec[0]["om"][k] += 1
+            k = [j for j, m in enumerate(baddeg[0]["mult"]) if m[2]][0]
+            baddeg[0]["mult"][k][2] += 1
+            _, b2 = ftable.validate_records("SumRuleRec.tla", ftable.REC_CFG, badrec + baddeg, scratch.name("c27_selftest"))
+            if 0 not in b2 or "band_equals_spec" not in b2[0] or "sum_rule" not in b2[0]:
+                raise MachineryError(f"binding self-test failed: corrupted record accepted ({b2})")
+            if 1 not in b2 or "multiplet_equals_spec" not in b2[1] or "multiplet_sum_rule" not in b2[1]:
+                raise MachineryError(f"binding self-test failed: corrupted degenerate record accepted ({b2})")
+            rep.part("binding_selftest", corrupted_record_rejected=b2[0], corrupted_degenerate_record_rejected=b2[1])
+        elif not rep.violations:
+            raise MachineryError("no record with non-zero curvature")
 
     # ------------------------------------------------------------ numeric_only
-    numeric(rep, rng, thorough, wd)
+    try:
+        numeric(rep, rng, thorough, wd)
+    finally:
+        import shutil
+        shutil.rmtree(wd, ignore_errors=True)
+    skipped.report(rep)
     return rep.finish()
 
 
 # -------------------------------------------------------------------------------------------------- numeric part
 def haldane_expected(delta, hop2, phi):
-    """C = (1/2 pi) int Omega_z of the lower band from the phase diagram; None if closer than 0.25 to the transition"""
+    """|C| of the lower band from the phase diagram; None if closer than 0.25 to the transition"""
     bound = 3 * np.sqrt(3) * abs(hop2 * np.sin(phi))
     if abs(abs(delta) - bound) < 0.25:
         return None
     return 0 if abs(delta) > bound else 1   # magnitude only; the sign is fixed by the plaquette computation
 
 
-def fukui(system, N, nocc=1):
-    """(1/2 pi) int Omega_z over the occupied bands by the plaquette method, with its own Fourier sum;
-    Omega = curl A, A = i<u|du>: the plaquette phase arg prod <u|u'> equals MINUS the flux of Omega"""
-    iR = system.rvec.iRvec
-    H = system.get_R_mat('Ham')
-    U = np.zeros((N, N, system.num_wann, nocc), complex)
+def fukui(Hk, N, nocc=1):
+    """(1/2 pi) int Omega_z over the nocc lowest bands by the plaquette method on the N x N mesh of the Bloch Hamiltonian
+    Hk(k reduced); Omega = curl A, A = i<u|du>: the plaquette phase arg prod <u|u'> equals MINUS the flux of Omega.
+    Returns (C, top of the occupied bands, bottom of the empty bands)"""
+    U = None
     vmax, cmin = -np.inf, np.inf
     for i in range(N):
         for j in range(N):
-            k = np.array([i / N, j / N, 0])
-            Hk = np.einsum("r,rab->ab", np.exp(2j * np.pi * iR @ k), H)
-            Hk = (Hk + Hk.conj().T) / 2
-            ev, vec = np.linalg.eigh(Hk)
+            H = np.array(Hk(np.array([i / N, j / N, 0.0])))
+            H = (H + H.conj().T) / 2
+            ev, vec = np.linalg.eigh(H)
+            if U is None:
+                U = np.zeros((N, N, H.shape[0], nocc), complex)
             U[i, j] = vec[:, :nocc]
             vmax, cmin = max(vmax, ev[nocc - 1]), min(cmin, ev[nocc])
+
     def link(a, b):
         return np.linalg.det(a.conj().T @ b)
     F = 0.0
@@ -284,19 +445,33 @@ def fukui(system, N, nocc=1):
     return -F / (2 * np.pi), float(vmax), float(cmin)
 
 
-def ahc_run(system, Ef, NK, fft, wd, name):
+def ahc_run(system, Ef, NK, fft, wd, name, tetra=False):
     import wannierberri as wb
     from wannierberri import calculators as calc
+    kwf = {"external_terms": False}
+    cc = {"ahc": calc.static.AHC(Efermi=np.array(Ef, dtype=float), kwargs_formula=kwf)}
+    if tetra:
+        cc["ahc_tetra"] = calc.static.AHC(Efermi=np.array(Ef, dtype=float), kwargs_formula=kwf, tetra=True)
     with quiet():
         grid = wb.Grid(system, NK=NK, NKFFT=fft)
-        res = wb.run(system, grid, {"ahc": calc.static.AHC(Efermi=np.array(Ef, dtype=float), kwargs_formula={"external_terms": False}, save_mode="")},
-                     parallel=False, adpt_num_iter=0, use_irred_kpt=False, symmetrize=False, fout_name=f"{wd}/{name}", print_progress_step_time=1e9)
-    return res.results["ahc"].data
+        res = wb.run(system, grid, cc, parallel=False, adpt_num_iter=0, use_irred_kpt=False, symmetrize=False, fout_name=f"{wd}/{name}")
+    return {k: np.array(v.data) for k, v in res.results.items()}, float(abs(getattr(cc["ahc"], "constant_factor", 0.0)))
+
+
+def guarded(rep, site, detail, fn, *a, **kw):
+    """a public call of the package: an exception is a violation and the check goes on with the next input"""
+    try:
+        return True, fn(*a, **kw)
+    except Exception as ex:  # noqa
+        if isinstance(ex, (MachineryError, OSError, ImportError)):
+            raise
+        import traceback
+        rep.violation(f"raises:{site}:{type(ex).__name__}", dict(detail, error=repr(ex)[:300], traceback=traceback.format_exc()[-1200:]))
+        return False, None
 
 
 def numeric(rep, rng, thorough, wd):
     import warnings
-    warnings.filterwarnings("ignore")
     import wannierberri as wb
     from wannierberri import models
     from scipy.constants import elementary_charge, angstrom, h
@@ -310,14 +485,22 @@ def numeric(rep, rng, thorough, wd):
         nw = rng.choice([2, 3, 4, 5])
         dim = rng.choice([2, 3])
         m = km.build(rng.randrange(1 << 30), nw=nw, dim=dim, rmax=1, keys=("Ham",), centres="random")
-        s = m.system()
+        ok, s = guarded(rep, "System_R.from_sparse", dict(model=m.describe()), m.system)
+        if not ok:
+            continue
         r = np.random.RandomState(rng.randrange(1 << 30))
         for _ in range(6):
             k = km.generic_k(r, dim=dim)
             if km.min_gap(m, k) < 1e-3:   # NonDegenerateK
                 continue
-            with quiet():
-                oc = wb.evaluate_k(s, k=k, quantities=["berry_curvature_internal_terms"])
+
+            def ev():
+                with quiet(), warnings.catch_warnings():
+                    warnings.simplefilter("ignore")
+                    return np.array(wb.evaluate_k(s, k=k, quantities=["berry_curvature_internal_terms"]))
+            ok, oc = guarded(rep, "evaluate_k", dict(model=m.dump(), k=k.tolist()), ev)
+            if not ok:
+                continue
             scale = max(1.0, float(np.abs(oc).max()))
             dev = float(np.abs(oc.sum(axis=0)).max())
             worst = max(worst, dev / scale)
@@ -325,79 +508,121 @@ def numeric(rep, rng, thorough, wd):
             rep.case(("sumrule_k", m.meta["seed"], tuple(k)), nontrivial=np.abs(oc).max() > 1e-6)
             if dev > tol * scale:
                 rep.violation("evaluate_k:berry_curvature_internal_terms:sum_rule", dict(model=m.dump(), k=k.tolist(), per_band=oc.tolist(), sum=oc.sum(axis=0).tolist()))
-    if ncase < nmod:
+    if ncase < nmod and not rep.violations:
         raise MachineryError("too few non-degenerate k-points")
     rep.part("numeric_only", sum_rule_cases=ncase, sum_rule_max_rel_dev=worst, tolerance=tol)
-    # (b) AHC with the Fermi level above all bands (and a non-zero value inside the spectrum)
+
+    # (b) AHC with the Fermi level above all bands (and a non-zero value inside the spectrum), with and without tetrahedra
     nrun = 6 if thorough else 2
     worst = 0.0
-    for im in range(nrun):
+    done = 0
+    tries = 0
+    while done < nrun and tries < 10 * nrun:
+        tries += 1
         nw = rng.choice([2, 3])
         m = km.build(rng.randrange(1 << 30), nw=nw, dim=3, rmax=1, keys=("Ham",), centres="random")
-        s = m.system()
-        Es = np.concatenate([np.linalg.eigvalsh(m.Hk(np.array([i, j, l]) / 4.0)) for i in range(4) for j in range(4) for l in range(4)])
+        kgrid = [np.array([i, j, l]) / 4.0 for i in range(4) for j in range(4) for l in range(4)]
+        if min(km.min_gap(m, k) for k in kgrid) < 0.02:      # NonDegenerateK on the k-points of the run
+            continue
+        Es = np.concatenate([np.linalg.eigvalsh(m.Hk(k)) for k in kgrid])
         bw = float(np.abs(Es).max()) + 20.0   # safely above sum of all |hoppings|
         mid = float(np.median(Es))
-        data = ahc_run(s, [mid, bw, bw + 1.0], [4, 4, 4], [2, 2, 2], wd, f"ahc{im}")
-        scale = max(1.0, float(np.abs(data[0]).max()))
-        dev = float(np.abs(data[1:]).max())
-        worst = max(worst, dev / scale)
+        det = dict(model=m.dump(), Efermi=[mid, bw, bw + 1.0])
+        ok, s = guarded(rep, "System_R.from_sparse", det, m.system)
+        if not ok:
+            done += 1
+            continue
+        ok, out = guarded(rep, "run:AHC", det, ahc_run, s, [mid, bw, bw + 1.0], [4, 4, 4], [2, 2, 2], wd, f"ahc{done}", tetra=True)
+        done += 1
+        if not ok:
+            continue
+        res, fac = out
+        data = res["ahc"]
+        vol = float(abs(np.linalg.det(m.lattice)))
+        scale = max(1.0, float(np.abs(data[0]).max()), fac / vol * 1e-3)
         rep.case(("ahc_above", m.meta["seed"]), nontrivial=np.abs(data[0]).max() > 1e-6 * scale)
         if np.abs(data[0]).max() < 1e-9:
             raise MachineryError("vacuous: AHC inside the spectrum vanishes for a random complex model")
-        if dev > tol * scale:
-            rep.violation("run:AHC:Ef_above_all_bands", dict(model=m.dump(), Efermi=[mid, bw, bw + 1.0], ahc=data.tolist()))
-    rep.part("numeric_only", ahc_above_runs=nrun, ahc_above_max_rel_dev=worst)
+        for nm, dd in res.items():
+            dev = float(np.abs(dd[1:]).max())
+            worst = max(worst, dev / scale)
+            if dev > tol * scale:
+                rep.violation(f"run:AHC:Ef_above_all_bands{':tetra' if nm == 'ahc_tetra' else ''}", dict(det, ahc=dd.tolist(), calculator=nm))
+    rep.part("numeric_only", ahc_above_runs=done, ahc_above_max_rel_dev=worst, ahc_above_calculators=["AHC", "AHC(tetra=True)"])
+
     # (c) Chern numbers
     quantum = elementary_charge ** 2 / h
     N = 60 if thorough else 40
+    worst = dict(haldane=0.0, bilayer=0.0, random=0.0)
+    seen = dict(haldane=set(), bilayer=set(), random=set())
+    counts = dict(haldane=0, bilayer=0, random=0, skipped_no_global_gap=0)
+
+    def chern_case(kind, name, build_system, Hk, nocc, det, expmag=None):
+        cf, vmax, cmin = fukui(Hk, 24, nocc)
+        if cmin - vmax < 0.5:   # GlobalGap: the Fermi level must lie in a global gap
+            counts["skipped_no_global_gap"] += 1
+            return
+        if abs(cf - round(cf)) > 1e-6 or (expmag is not None and abs(round(cf)) != expmag):
+            raise MachineryError(f"plaquette oracle is not an integer / disagrees with the Haldane phase diagram: {cf} {det}")
+        ok, s = guarded(rep, name, det, build_system)
+        if not ok:
+            return
+        c = float(s.real_lattice[2, 2])
+        ef = 0.5 * (vmax + cmin)
+        ok, out = guarded(rep, "run:AHC", dict(det, Efermi=ef), ahc_run, s, [ef, 100.0], [N, N, 1], [N // 4, N // 4, 1], wd, "chern")
+        if not ok:
+            return
+        data = out[0]["ahc"]
+        cz = data[0, 2] * c * angstrom / quantum    # = -C
+        cfull = data[1, 2] * c * angstrom / quantum
+        counts[kind] += 1
+        seen[kind].add(int(round(cf)))
+        rep.case(("chern", kind, name, repr(sorted(det.items()))[:200]), nontrivial=round(cf) != 0)
+        det = dict(det, grid=N, Efermi=ef, occupied_bands=nocc, global_gap=cmin - vmax, ahc_c_over_e2h=float(cz), plaquette_C=float(cf),
+                   xy_components=data[0, :2].tolist())
+        worst[kind] = max(worst[kind], float(abs(cz - round(cz))))
+        if abs(cz - round(cz)) > TOL_CHERN[kind]:
+            rep.violation("AHC:Chern:not_integer", det)
+        elif round(cz) != -round(cf):
+            rep.violation("AHC:Chern:wrong_phase" if abs(round(cz)) != abs(round(cf)) else "AHC:Chern:sign", det)
+        if abs(cfull) > 1e-6:
+            rep.violation("AHC:Chern:filled_bands_nonzero", dict(det, ahc_all_bands=float(cfull)))
+        if np.abs(data[0, :2]).max() > 1e-8:
+            rep.violation("AHC:Chern:inplane_components", det)
+        rep.sample(dict(fn="AHC/" + kind, **det))
+
     grid_params = [(0.2, 0.15, np.pi / 2), (0.2, 0.15, -np.pi / 2), (1.2, 0.15, np.pi / 2), (-0.2, 0.2, 2.0), (0.2, 0.25, -1.0), (-1.5, 0.15, 0.7)]
     if thorough:
         grid_params += [(d, t2, ph) for d in (0.0, 0.3, -0.3, 1.5) for t2 in (0.15, 0.3) for ph in (np.pi / 2, -np.pi / 3, 2.5)]
-    nch = 0
-    nskip = 0
-    worst = 0.0
-    seen = set()
     for delta, t2, phi in grid_params:
         expmag = haldane_expected(delta, t2, phi)
         if expmag is None:   # AwayFromTransition
             continue
-        builders = [("tbm", lambda: wb.system.System_R.from_tbmodels(models.Haldane_tbm(delta=delta, hop1=-1.0, hop2=t2, phi=phi)))]
-        if abs(delta - 0.2) < 1e-12:   # Haldane_ptb ignores its delta argument (that is C32's business): use it only where it does not matter
-            builders.append(("ptb", lambda: wb.system.System_R.from_pythtb(models.Haldane_ptb(delta=delta, hop1=-1.0, hop2=t2, phi=phi))))
-        for bname, bld in builders:
-            with quiet():
-                s = bld()
-            c = float(s.real_lattice[2, 2])
-            cf, vmax, cmin = fukui(s, 24)
-            if cmin - vmax < 0.5:   # GlobalGap: the Fermi level must lie in a global gap (large t2 cos(phi) makes the bands overlap)
-                nskip += 1
-                continue
-            ef = 0.5 * (vmax + cmin)
-            data = ahc_run(s, [ef, 100.0], [N, N, 1], [N // 4, N // 4, 1], wd, "haldane")
-            cz = data[0, 2] * c * angstrom / quantum    # = -C
-            cfull = data[1, 2] * c * angstrom / quantum
-            nch += 1
-            seen.add(int(round(cf)))
-            rep.case(("chern", bname, delta, t2, round(phi, 6)), nontrivial=expmag == 1)
-            det = dict(builder=bname, delta=delta, hop2=t2, phi=phi, grid=N, Efermi=ef, global_gap=cmin - vmax, ahc_c_over_e2h=float(cz), plaquette_C=float(cf), expected_abs=expmag,
-                       xy_components=data[0, :2].tolist())
-            worst = max(worst, float(abs(cz - round(cz))))
-            if abs(cf - round(cf)) > 1e-6 or abs(round(cf)) != expmag:
-                raise MachineryError(f"plaquette oracle disagrees with the Haldane phase diagram: {det}")
-            if abs(cz - round(cz)) > 0.02:
-                rep.violation("AHC:Chern:not_integer", det)
-            elif abs(round(cz)) != expmag:
-                rep.violation("AHC:Chern:wrong_phase", det)
-            elif round(cz) != -round(cf):
-                rep.violation("AHC:Chern:sign", det)
-            if abs(cfull) > 1e-6:
-                rep.violation("AHC:Chern:filled_bands_nonzero", dict(det, ahc_all_bands=float(cfull)))
-            if np.abs(data[0, :2]).max() > 1e-8:
-                rep.violation("AHC:Chern:inplane_components", det)
-            rep.sample(dict(fn="AHC/Haldane", **det))
-    if not {-1, 0, 1} <= seen:
-        raise MachineryError(f"Chern cases do not cover -1, 0, +1: {seen}")
-    import shutil
-    shutil.rmtree(wd, ignore_errors=True)
-    rep.part("numeric_only", chern_cases=nch, chern_skipped_no_global_gap=nskip, chern_max_distance_from_integer=worst, chern_tolerance=0.02, chern_grid=N)
+        Hk = km.haldane_hk(delta, -1.0, t2, phi)
+        for bname, bld in (("System_R.from_tbmodels", lambda: _quiet(lambda: wb.system.System_R.from_tbmodels(models.Haldane_tbm(delta=delta, hop1=-1.0, hop2=t2, phi=phi)))),
+                           ("System_R.from_pythtb", lambda: _quiet(lambda: wb.system.System_R.from_pythtb(models.Haldane_ptb(delta=delta, hop1=-1.0, hop2=t2, phi=phi))))):
+            chern_case("haldane", bname, bld, Hk, 1, dict(builder=bname, delta=delta, hop2=t2, phi=phi), expmag=expmag)
+    # coupled Haldane bilayers: four bands, two occupied, C in {-2, ..., 2}
+    layer = [(0.2, 0.15, np.pi / 2), (0.2, 0.15, -np.pi / 2), (1.2, 0.15, np.pi / 2), (-0.2, 0.2, 2.0)]
+    pairs = [(0, 0), (0, 1), (0, 2), (1, 1)] + ([(1, 3), (2, 3), (3, 3), (0, 3)] if thorough else [])
+    for a, b in pairs:
+        m = km.haldane_bilayer(rng.randrange(1 << 30), layer[a], layer[b], coupling=0.125)
+        chern_case("bilayer", "System_R.from_sparse", lambda: m.system(periodic=(True, True, False)), m.Hk, 2, dict(model=m.describe()))
+    # random four-band 2-D models with a staircase of on-site energies, two occupied bands
+    for _ in range(4 if thorough else 2):
+        m = km.build(rng.randrange(1 << 30), nw=4, dim=2, rmax=1, keys=("Ham",), centres="random", onsite_spread=rng.choice([8.0, 12.0]))
+        chern_case("random", "System_R.from_sparse", lambda: m.system(periodic=(True, True, False)), m.Hk, 2, dict(model=m.describe()))
+    if not rep.violations:
+        if not {-1, 0, 1} <= seen["haldane"]:
+            raise MachineryError(f"Haldane Chern cases do not cover -1, 0, +1: {seen['haldane']}")
+        if not counts["bilayer"] or not counts["random"] or not any(abs(x) == 2 for x in seen["bilayer"]):
+            raise MachineryError(f"multi-band Chern cases missing: {counts}, bilayer C seen {seen['bilayer']}")
+    rep.part("numeric_only", chern_cases=counts, chern_numbers_seen={k: sorted(v) for k, v in seen.items()}, chern_max_distance_from_integer=worst,
+             chern_tolerance=TOL_CHERN, chern_grid=N)
+
+
+def _quiet(fn):
+    import warnings
+    with quiet(), warnings.catch_warnings():
+        warnings.simplefilter("ignore")
+        return fn()
